@@ -31,8 +31,8 @@ def check(rep: Report, repo: Optional[Repo] = None) -> None:
 
 
 MANIFEST = dict(
-    technique='own .fj front end: link closure, doc-extent vs computed cell footprint, constant-folded lookup tables, carry bracketing',
-    level_text='Static, PARTIAL: decides four structural necessary conditions of C04 from the macro text - every call and global label '
+    technique='own .fj front end: link closure, doc-extent vs computed cell footprint, constant-folded lookup tables, carry bracketing; scratch / alias / jump-word typestate / constant-width rules',
+    level_text='Also: documented scratch cells are initialised before use, documented alias hazards are respected, a borrowed jump word is given back on every path out of a macro (typestate over the macro CFG), and constants written into fixed-width vectors fit with the sign bit free for sign-tested counters. Static, PARTIAL: decides four structural necessary conditions of C04 from the macro text - every call and global label '
                'reachable from the hex files resolves (name and arity); each documented vector extent equals the computed cell footprint '
                'of that parameter (154 frozen triples library-wide, instantiated for sizes 4/5/8); the or/and/add/sub/cmp/mul leaf tables '
                'equal their documented function on all 256 indices (constant folding, not execution); carry chains are bracketed by '
